@@ -428,10 +428,8 @@ def matchLoop {α : Type} [ScoreNum α] (rowx rowy : List Nat) (pf : Nat → Opt
     matchLoop rowx rowy pf k (i+1) (prob, sx, sy)
 
 open ScoreNum in
-/-- `esl_abc_Match(abc, x, y, p)`; `p = none` is the NULL pointer (uniform background). The guard follows the
-    documentation ("comparisons involving gap or missing data return 0.0"): both `x` and `y` are tested. The pinned C code
-    tests `x` twice and never `y` (proposed fix C08-match-guard); the two agree whenever `y` is a residue code, which is
-    the documented precondition and what the correspondence generator feeds. -/
+/-- `esl_abc_Match(abc, x, y, p)`; `p = none` is the NULL pointer (uniform background). Comparisons involving a gap,
+    nonresidue, missing-data or invalid code return 0.0 (the guard tests both `x` and `y`). -/
 def matchProb {α : Type} [ScoreNum α] (a : Alphabet) (x y : Nat) (p : Option (List α)) : Option α :=
   if a.xIsCanonical x && a.xIsCanonical y then some (if x = y then ofNat 1 else zero)
   else if !a.xIsResidue x || !a.xIsResidue y then some zero
